@@ -104,16 +104,19 @@ def holdsIn (s : Settings) (decode : Bytes → Option JTree) (recs : List Rec) (
 /-! ## antispam: observations and the trace oracle -/
 
 open FileD.Antispam in
-/-- what the harness saw for one op -/
+/-- what the harness saw for one op: an IsSpam answer, or all source counters just before and just
+    after a Maintenance round -/
 inductive Obs
   | ans (b : Bool)
   | maint (before after : List (Bytes × Int))
 
+/-- what is known of one source from the observations so far -/
 structure Book where
-  pot     : Nat := 0       -- events of the source that reached the counter since the last round
-  entered : Bool := false  -- Dump just before the last round showed its counter ≥ T
-  everTrue : Bool := false
-  silent  : Nat := 0       -- maintenance rounds since its last event
+  pot    : Nat := 0          -- its events that got as far as the counter since the last round
+  before : Option Int := none -- its counter just before the last round (none: no round / no entry)
+  after  : Option Int := none -- its counter just after the last round (none: no round / no entry);
+                              --   an isNewSource event (counter reset) makes both `some 0`
+  silent : Nat := 0          -- maintenance rounds since its last counter-reaching event
 deriving Repr
 
 def getBook (id : Bytes) : List (Bytes × Book) → Book
@@ -133,12 +136,18 @@ def thrsOf (cfg : Antispam.Cfg) (id : Bytes) : List Antispam.Op → List Int
     | .count t => if e.id = id then t :: thrsOf cfg id ops else thrsOf cfg id ops
     | _ => thrsOf cfg id ops
 
-/-- the source's one threshold, when all its counted events resolve to the same one -/
-def uniformT (ts : List Int) : Option Int :=
+/-- all equal -/
+def uniform (ts : List Int) : Bool :=
   match ts with
-  | [] => none
-  | t :: r => if r.all (· == t) then some t else none
+  | [] => true
+  | t :: r => r.all (· == t)
 
+def minOf : List Int → Int → Int
+  | [], d => d
+  | t :: r, d => minOf r (if t < d then t else d)
+
+/-- the threshold is positive and it and its ban value fit an int32 (the conversions in the code
+    are the identity); outside of this the literal property is not demanded -/
 def fits (cfg : Antispam.Cfg) (t : Int) : Bool :=
   decide (0 < t) && decide (0 ≤ cfg.unban) && decide (cfg.unban * t < 2147483648) && decide (t < 2147483648)
 
@@ -147,45 +156,76 @@ def shown (d : List (Bytes × Int)) (id : Bytes) : Option Int :=
   | [] => none
   | (k, c) :: r => if k = id then some c else shown r id
 
-/-- replay; `all` = the complete op list (for `uniformT`) -/
+/-- result of the replay: `bad` = an observation violates the property in a way no recorded finding
+    explains; `residue` / `mixed` = violations of the literal ban clause of the two recorded kinds -/
+structure Acc where
+  bad     : Bool := false
+  residue : Bool := false
+  mixed   : Bool := false
+deriving Repr
+
+def Acc.badIf (a : Acc) (c : Bool) : Acc := if c then { a with bad := true } else a
+
+/-- The literal ban clause for one true answer. `T` = the threshold the event resolves to, `pot` =
+    the source's events that reached the counter since the last round (this one included), `b` =
+    what was seen of the source at that round, `ts` = the thresholds of all its counted events in
+    the case. Not banned after the round (counter < T, or no round / no entry) ⇒ `pot ≥ T` is demanded.
+    A miss is *mixed* when the source's events resolve to different thresholds (the counter and the
+    stored threshold are per source) and at least the smallest of them was reached; it is *residue*
+    when the round unbanned the source (counter ≥ T before, 0 < counter < T after) and the events
+    that arrived while it was banned explain the early ban (after + pot ≥ T); otherwise it is `bad`. -/
+def banClause (a : Acc) (T : Int) (pot : Nat) (b : Book) (ts : List Int) : Acc :=
+  let c0 : Int := match b.after with | some c => c | none => 0
+  if decide (c0 ≥ T) || decide ((pot : Int) ≥ T) then a
+  else if !uniform ts then
+    (if decide (c0 + pot ≥ minOf ts T) then { a with mixed := true } else { a with bad := true })
+  else
+    let bef : Int := match b.before with | some c => c | none => 0
+    if decide (c0 > 0) && decide (bef ≥ T) && decide (c0 + pot ≥ T) then { a with residue := true }
+    else { a with bad := true }
+
+/-- replay; `all` = the complete op list (for the thresholds of a source) -/
 def checkSpamGo (cfg : Antispam.Cfg) (all : List Antispam.Op) :
-    List (Bytes × Book) → List Antispam.Op → List Obs → Bool
-  | _, [], [] => true
-  | bs, .event e :: ops, .ans a :: os =>
+    Acc → List (Bytes × Book) → List Antispam.Op → List Obs → Acc
+  | a, _, [], [] => a
+  | a, bs, .event e :: ops, .ans ans :: os =>
     match Antispam.verdict cfg e with
-    | .pass => !a && checkSpamGo cfg all bs ops os        -- disabled / exception / unlimited rule
-    | .block => a && checkSpamGo cfg all bs ops os
+    | .pass => checkSpamGo cfg all (a.badIf ans) bs ops os       -- disabled / exception / unlimited rule
+    | .block => checkSpamGo cfg all (a.badIf (!ans)) bs ops os
     | .count t =>
       let b := getBook e.id bs
       let ts := thrsOf cfg e.id all
-      let pot := if e.isNew then b.pot else b.pot + 1
-      let okNew := !(e.isNew && a)
-      -- ban_needs_threshold
-      let okBan := match uniformT ts with
-        | some u =>
-          if a && fits cfg u then
-            decide ((pot : Int) ≥ u) || b.entered || (decide (cfg.threshold > u) && b.everTrue)
-          else true
-        | none => true
-      -- silent_source_unbanned: after unban+1 silent rounds the source counts from zero
-      let okSilent :=
-        if a && ts.all (fits cfg) && decide ((b.silent : Int) ≥ cfg.unban + 1) then decide (t ≤ 1) else true
-      okNew && okBan && okSilent &&
-        checkSpamGo cfg all (setBook e.id { b with pot := pot, everTrue := b.everTrue || a, silent := 0 } bs) ops os
-  | bs, .maint :: ops, .maint before after :: os =>
+      let ok := ts.all (fits cfg)
+      if e.isNew then
+        -- isNewSource: answered false, the counter is reset
+        checkSpamGo cfg all (a.badIf ans) (setBook e.id { b with before := some 0, after := some 0 } bs) ops os
+      else
+        let pot := b.pot + 1
+        -- ban_needs_threshold, literal reading
+        let a1 := if ans && ok then banClause a t pot b ts else a
+        -- silent_source_unbanned: after unban+1 silent rounds the source counts from zero
+        let a2 := a1.badIf (ans && ok && decide ((b.silent : Int) ≥ cfg.unban + 1) && decide (t > 1))
+        checkSpamGo cfg all a2 (setBook e.id { b with pot := pot, silent := 0 } bs) ops os
+  | a, bs, .maint :: ops, .maint before after :: os =>
     let bs' := bs.map fun (id, b) =>
-      let ent := match uniformT (thrsOf cfg id all), shown before id with
-        | some u, some c => decide (c ≥ u)
-        | _, _ => false
-      (id, { b with pot := 0, entered := ent, silent := b.silent + 1 })
-    let okSilent := bs'.all fun (id, b) =>
-      if (thrsOf cfg id all).all (fits cfg) && decide ((b.silent : Int) ≥ cfg.unban + 1)
-      then (match shown after id with | none => true | some c => c == 0) else true
-    okSilent && checkSpamGo cfg all bs' ops os
-  | _, _, _ => false
+      (id, { b with pot := 0, before := shown before id, after := shown after id, silent := b.silent + 1 })
+    -- silent_source_unbanned: gone from the table or at counter 0
+    let badSilent := bs'.any fun (id, b) =>
+      (thrsOf cfg id all).all (fits cfg) && decide ((b.silent : Int) ≥ cfg.unban + 1) &&
+        (match shown after id with | none => false | some c => c != 0)
+    checkSpamGo cfg all (a.badIf badSilent) bs' ops os
+  | a, _, _, _ => { a with bad := true }
 
 /-- property oracle for a `c20.spam` case -/
-def holdsSpam (cfg : Antispam.Cfg) (ops : List Antispam.Op) (obs : List Obs) : Bool :=
-  checkSpamGo cfg ops [] ops obs
+def holdsSpam (cfg : Antispam.Cfg) (ops : List Antispam.Op) (obs : List Obs) : Acc :=
+  checkSpamGo cfg ops {} [] ops obs
+
+/-- `ok`, `fail` (unexplained), or `fail:` + the recorded kinds that occurred -/
+def verdictTok (a : Acc) : String :=
+  if a.bad then "fail"
+  else if a.mixed && a.residue then "fail:mixed,residue"
+  else if a.mixed then "fail:mixed"
+  else if a.residue then "fail:residue"
+  else "ok"
 
 end FileD.SpecC20
